@@ -31,7 +31,7 @@ import (
 var bodyStrings = []string{
 	"{\"item\": \"ünï — \\\"q\\\"\", \"n\": 1}\n", "line1\nline2\n", "one line\n", "keep two\n\n", "keep three\n\n\n", "\n", "\n\n",
 	"no final break\nsecond", "  indented first\nrest\n", "\ttab first\n", "a\n\n\nb\n", "\nleading break\n", "trailing space \n",
-	"# not a comment\nkey: value\n", "- a\n- b\n", "EOF \n", "x ${y %{ z\n", "<a b=\"c\">\n  <d/>\n</a>\n", " \n", "a\n \nb",
+	"# not a comment\nkey: value\n", "- a\n- b\n", "EOF \n", "x ${y %{ z\n", "<a b=\"c\">\n  <d/>\n</a>\n", " \n", "a\n \nb", "crlf\r\nbody\r\n", "break then spaces\n  ", "\n\nbody after two breaks",
 }
 
 func blockable(x string) bool {
@@ -167,7 +167,22 @@ func (y *yLay) order(kvs []s.KV) []s.KV {
 }
 
 // prefix: the line so far (`  key:` or `  -`); parent: the column of the collection the node sits in
-func (y *yLay) node(prefix string, v *s.V, parent int) {
+func (y *yLay) node(prefix string, v *s.V, parent int) { y.nodeAt(prefix, v, parent, false) }
+
+// moves an entry that satisfies `want` to the end (the last one that does)
+func moveLast(kvs []s.KV, want func(kv s.KV) bool) []s.KV {
+	for i := len(kvs) - 1; i >= 0; i-- {
+		if want(kvs[i]) {
+			kv := kvs[i]
+			kvs = append(append(kvs[:i:i], kvs[i+1:]...), kv)
+			break
+		}
+	}
+	return kvs
+}
+
+// last: the node is the last one of the file and the layout is steered towards ending inside a block scalar
+func (y *yLay) nodeAt(prefix string, v *s.V, parent int, last bool) {
 	switch v.K {
 	case 'n':
 		y.line(prefix + " " + []string{"null", "~"}[y.r.Intn(2)])
@@ -179,7 +194,7 @@ func (y *yLay) node(prefix string, v *s.V, parent int) {
 		y.line(prefix + " " + strconv.FormatInt(v.I, 10))
 	case 's':
 		x := v.S
-		if blockable(x) && (y.r.Bool() || (strings.Contains(x, "\n") && y.r.Bool())) {
+		if blockable(x) && (last || y.r.Bool() || (strings.Contains(x, "\n") && y.r.Bool())) {
 			first := x[0]
 			inc := 1 + y.r.Intn(4)
 			hdr := "|"
@@ -212,18 +227,23 @@ func (y *yLay) node(prefix string, v *s.V, parent int) {
 		if y.r.Bool() {
 			c = parent + y.w
 		}
-		for _, x := range v.L {
+		for n, x := range v.L {
+			lastItem := last && n == len(v.L)-1
 			if x.K == 'm' && len(x.M) > 0 {
-				for i, kv := range y.order(x.M) {
+				kvs := y.order(x.M)
+				if lastItem {
+					kvs = moveLast(kvs, func(kv s.KV) bool { return kv.Val.K == 's' && blockable(kv.Val.S) })
+				}
+				for i, kv := range kvs {
 					if i == 0 {
-						y.node(sp(c)+"- "+y.key(kv.Key)+":", kv.Val, c+2)
+						y.nodeAt(sp(c)+"- "+y.key(kv.Key)+":", kv.Val, c+2, lastItem && i == len(kvs)-1)
 					} else {
-						y.node(sp(c+2)+y.key(kv.Key)+":", kv.Val, c+2)
+						y.nodeAt(sp(c+2)+y.key(kv.Key)+":", kv.Val, c+2, lastItem && i == len(kvs)-1)
 					}
 				}
 				continue
 			}
-			y.node(sp(c)+"-", x, c)
+			y.nodeAt(sp(c)+"-", x, c, lastItem)
 		}
 	case 'm':
 		if len(v.M) == 0 {
@@ -246,8 +266,16 @@ func toYAMLLay(v *s.V, r *vh.Rand) (string, []string) {
 	if v.K != 'm' || len(v.M) == 0 {
 		return toYAML(v), nil
 	}
-	for _, kv := range y.order(v.M) {
-		y.node(y.key(kv.Key)+":", kv.Val, 0)
+	top := y.order(v.M)
+	steer := r.Intn(3) == 0
+	if steer {
+		// a section of steps (requests / calls) is written last, its last step ends with one of its strings
+		top = moveLast(top, func(kv s.KV) bool {
+			return kv.Val.K == 'l' && len(kv.Val.L) > 0 && kv.Val.L[0].K == 'm' && kv.Key != "scenarios" && r.Intn(3) != 0
+		})
+	}
+	for i, kv := range top {
+		y.nodeAt(y.key(kv.Key)+":", kv.Val, 0, steer && i == len(top)-1)
 	}
 	if y.open != nil {
 		// the file ends inside a block scalar
@@ -370,8 +398,7 @@ func (l *hclLay) assemble(body string, locals [][]string) string {
 // generator, run
 
 // a description whose strings are more often the ones block scalars and heredocs exist for
-func genLay(r *vh.Rand) string {
-	d := genDesc(r, 1+r.Intn(3))
+func withBodyStrings(d *s.V, r *vh.Rand) {
 	var visit func(v *s.V)
 	visit = func(v *s.V) {
 		switch v.K {
@@ -386,7 +413,7 @@ func genLay(r *vh.Rand) string {
 					if kv.Val.K == 's' && r.Intn(3) != 0 {
 						v.M[i].Val = s.Str(bodyStrings[r.Intn(len(bodyStrings))])
 					}
-				case "tag", "uri", "file":
+				case "tag", "uri":
 					if kv.Val.K == 's' && r.Intn(6) == 0 {
 						v.M[i].Val = s.Str(kv.Val.S + bodyStrings[r.Intn(len(bodyStrings))])
 					}
@@ -412,6 +439,11 @@ func genLay(r *vh.Rand) string {
 			q.M = append(q.M, s.KV{Key: "body", Val: s.Str(bodyStrings[r.Intn(len(bodyStrings))])})
 		}
 	}
+}
+
+func genLay(r *vh.Rand) string {
+	d := genDesc(r, 1+r.Intn(3))
+	withBodyStrings(d, r)
 	return "lay " + strconv.FormatUint(r.U64()>>1, 10) + " " + d.Token()
 }
 
